@@ -12,6 +12,34 @@ def formula(n, atom):
     if k == "block":
         if not n["stmts"] and "tail" in n:
             return formula(n["tail"], atom)
+        # `if c { return <bool> } .. <tail>` (early exits of a bool-valued closure / function body): ite(c, <bool>, <rest>)
+        items = list(n["stmts"]) + ([n["tail"]] if "tail" in n else [])
+        if items:
+            def rest(i):
+                if i == len(items) - 1:
+                    last = H.peel(items[i], refs=False)
+                    if last.get("k") == "semi":
+                        last = H.peel(last["e"], refs=False)
+                    if last.get("k") == "ret" and "e" in last:
+                        return formula(last["e"], atom)
+                    return formula(items[i], atom)
+                st = H.peel(items[i], refs=False)
+                if st.get("k") == "semi":
+                    st = H.peel(st["e"], refs=False)
+                if st.get("k") == "if" and "else" not in st and H.peel(st["cond"], refs=False).get("k") != "letexpr":
+                    th = H.peel(st["then"], refs=False)
+                    while th.get("k") == "block" and len(th.get("stmts", [])) + (1 if "tail" in th else 0) == 1:
+                        th = H.peel((th["stmts"] + ([th["tail"]] if "tail" in th else []))[0], refs=False)
+                        if th.get("k") == "semi":
+                            th = H.peel(th["e"], refs=False)
+                    if th.get("k") == "ret" and "e" in th:
+                        return ("ite", formula(st["cond"], atom), formula(th["e"], atom), rest(i + 1))
+                return None
+            shaped = all(H.peel(x, refs=False).get("k") in ("if", "semi") for x in items[:-1])
+            if shaped and len(items) > 1:
+                r = rest(0)
+                if r is not None and "?" not in str(r)[:0]:
+                    return r
     if k == "lit" and (n.get("lit") or {}).get("t") == "bool":
         return ("const", n["lit"]["v"])
     if k == "bin" and n["op"] in ("&&", "||"):
